@@ -1,6 +1,8 @@
 (* Stun.v -- src/proto/stun.rs: binding request -> binding success response. *)
 From MS Require Export Bytes Types.
 
+Definition pad4 (n : N) : N := ((n + 3) / 4) * 4.
+
 (* walk the attribute list; None = malformed (the request is ignored),
    Some b = well-formed, b = some CHANGE-REQUEST asks for another port *)
 Fixpoint stun_attrs (fuel : nat) (v : bytes) (chg : bool) : option bool :=
@@ -13,7 +15,8 @@ Fixpoint stun_attrs (fuel : nat) (v : bytes) (chg : bool) : option bool :=
       let len := u16_at 2 v in
       if lenN v <? 4 + len then None
       else
-        let next := skipn (4 + N.to_nat len) v in
+        (* RFC 5389: the next attribute starts at the next multiple of 4 *)
+        let next := skipn (4 + N.to_nat (pad4 len)) v in
         if ty =? 1 then
           if len <? 4 then None
           else
